@@ -107,7 +107,9 @@ NextStart(p) == IF attempt[p] + 1 > 1 THEN startBlk[p] + C.max ELSE startBlk[p]
 
 BeginAttempt(p) ==
     /\ pc[p] = "top"
-    /\ attempt[p] < MaxAttempts \/ cancelled[p]
+    \* (bound of the model; a cancelled signing loop returns right here, a key
+    \* generation loop does not look at its context at this point)
+    /\ attempt[p] < MaxAttempts \/ (cancelled[p] /\ kind = "signing")
     /\ attempt' = [attempt EXCEPT ![p] = @ + 1]
     /\ IF kind = "signing" /\ cancelled[p]
           THEN /\ Return(p, [kind |-> "ctx"])
@@ -120,7 +122,9 @@ BeginAttempt(p) ==
             /\ prevTimeout' = [prevTimeout EXCEPT ![p] = IF entry[p].n = 0 THEN -1 ELSE entry[p].timeout]
             /\ Goto(p, IF kind = "signing" THEN "observe" ELSE "waitStart")
             /\ UNCHANGED ret
-    /\ UNCHANGED <<inputs, cur, late, cancelled, waiters, ready, inc>>
+    \* (ready, included and late are locals of the loop body)
+    /\ ready' = [ready EXCEPT ![p] = {}] /\ inc' = [inc EXCEPT ![p] = {}] /\ late' = [late EXCEPT ![p] = FALSE]
+    /\ UNCHANGED <<inputs, cur, cancelled, waiters>>
 
 ---------------------------------------------------------------------------
 (* Signing only: getCurrentBlockFn and the "announcement phase is in the   *)
@@ -362,6 +366,11 @@ ResultWindow ==
 ConstantsSane ==
     /\ C.delay >= 0 /\ C.active > 0 /\ C.protocol > 0
     /\ C.max > C.active + C.protocol       \* <=> Timeout(n) < AnnStart(n+1)
+
+\* Model constraint for the larger exhaustive configurations: spawned
+\* goroutines ask promptly (they only matter for SpawnedAreBoundaries and
+\* for trace validation, not for the loop's control flow)
+FewPendingWaiters == \A p \in Procs : Cardinality(waiters[p]) <= 1
 
 TypeOK ==
     /\ kind \in {"signing", "dkg"}
